@@ -30,22 +30,41 @@ def rt(n):
     return Sym({((name, 1),): Fraction(1)})
 
 
+_l1_cache = {}
+
+
+def _level1_recipe(expr):
+    if expr in _l1_cache:
+        return _l1_cache[expr]
+    e = sympy.nsimplify(sympy.radsimp(sympy.simplify(expr)))
+    out = None
+    if e.is_Rational:
+        out = (Fraction(int(e.p), int(e.q)), Fraction(0), 0)
+    else:
+        for n in _ROOTS:
+            r = sympy.sqrt(n)
+            a = e.subs(r, 0)
+            if a.is_Rational:
+                b = sympy.simplify((e - a) / r)
+                if b.is_Rational:
+                    out = (Fraction(int(a.p), int(a.q)), Fraction(int(b.p), int(b.q)), n)
+                    break
+    _l1_cache[expr] = out
+    return out
+
+
 def _level1(expr):
     """expr in Q or Q(sqrt n) -> Sym, else None."""
-    expr = sympy.nsimplify(sympy.radsimp(sympy.simplify(expr)))
-    if expr.is_Rational:
-        return Sym.const(Fraction(int(expr.p), int(expr.q)))
-    for n in _ROOTS:
-        r = sympy.sqrt(n)
-        a = expr.subs(r, 0)
-        if a.is_Rational:
-            b = sympy.simplify((expr - a) / r)
-            if b.is_Rational:
-                return Sym.const(Fraction(int(a.p), int(a.q))) + rt(n) * Fraction(int(b.p), int(b.q))
-    return None
+    rec = _level1_recipe(expr)
+    if rec is None:
+        return None
+    a, b, n = rec
+    return Sym.const(a) + (rt(n) * b if b else Sym({}))
 
 
 _nested_memo = {}
+_sq_cache = {}
+_eig_cache = {}
 
 
 def lift_expr(expr):
@@ -54,7 +73,9 @@ def lift_expr(expr):
     if l1 is not None:
         return l1
     val = float(expr)
-    sq = sympy.simplify(sympy.expand(expr ** 2))
+    if expr not in _sq_cache:
+        _sq_cache[expr] = sympy.simplify(sympy.expand(expr ** 2))
+    sq = _sq_cache[expr]
     sq1 = _level1(sq)
     if sq1 is None:
         raise SymError("cannot lift %s to a quadratic algebraic atom" % expr)
@@ -75,11 +96,26 @@ def lift_eigensystem(na, w, v):
     column by column (sign and order) to the exact one and return object arrays of Sym."""
     n = na.shape[0]
     M = sympy.Matrix(n, n, lambda i, j: sympy.Rational(*_frac(na[i, j]).as_integer_ratio()))
-    exact = []
-    for lam, mult, basis in M.eigenvects():
-        lam = sympy.nsimplify(sympy.simplify(lam))
-        ortho = sympy.GramSchmidt([sympy.simplify(b) for b in basis], True)
-        exact.append((lam, [sympy.simplify(b) for b in ortho]))
+    ck = tuple(_frac(x) for x in na.ravel())
+    if ck not in _eig_cache:
+        exact = []
+        for lam, mult, basis in M.eigenvects():
+            lam = sympy.nsimplify(sympy.simplify(lam))
+            ortho = sympy.GramSchmidt([sympy.simplify(b) for b in basis], True)
+            exact.append((lam, [sympy.simplify(b) for b in ortho]))
+        _eig_cache[ck] = exact
+    exact = _eig_cache[ck]
+    vk = (ck, tuple(round(float(x), 9) for x in w), tuple(round(float(x), 9) for x in v.ravel()))
+    if vk in _eig_cache:
+        lam_cols, exact_cols = _eig_cache[vk]
+        w_out = _np.empty(n, dtype=object)
+        v_out = _np.empty((n, n), dtype=object)
+        for j in range(n):
+            w_out[j] = lift_expr(lam_cols[j])
+            for i in range(n):
+                v_out[i, j] = lift_expr(exact_cols[j][i])
+        return w_out, v_out
+    lam_cols = []
     w_out = _np.empty(n, dtype=object)
     v_out = _np.empty((n, n), dtype=object)
     exact_cols = []
@@ -115,6 +151,7 @@ def lift_eigensystem(na, w, v):
         if sympy.simplify(M * exact_col - lam * exact_col) != sympy.zeros(n, 1):
             raise SymError("lifted eigenvector does not satisfy M v = lambda v exactly")
         exact_cols.append(exact_col)
+        lam_cols.append(lam)
         w_out[j] = lift_expr(lam)
         for i in range(n):
             if abs(float(exact_col[i]) - col[i]) > 1e-9:
@@ -125,6 +162,7 @@ def lift_eigensystem(na, w, v):
         for b in range(a):
             if sympy.simplify((exact_cols[a].T * exact_cols[b])[0, 0]) != 0:
                 raise SymError("lifted eigenvectors are not exactly orthogonal")
+    _eig_cache[vk] = (lam_cols, exact_cols)
     return w_out, v_out
 
 
